@@ -76,7 +76,7 @@ func orderHash(st *store.Store) string {
 func TestC10(t *testing.T) {
 	r := mon.Start(t, "C10")
 	defer r.Close()
-	R, P, F := r.Pick(6, 24), r.Pick(6, 24), r.Pick(8, 16)
+	R, P, F := r.Pick(10, 48), r.Pick(10, 48), r.Pick(10, 32)
 
 	// ---- files: repeats and fragmentations ----
 	type fcase struct {
